@@ -50,7 +50,22 @@ var (
 	entries []entry
 	unknown []string
 	rawMods = map[string]bool{}
+	sites   []site
 )
+
+// site: a construct inside the call graph of ExportGenesis / InitGenesis that can make the
+// exported or imported set depend on its size (paging, limits, slicing, bounded iteration).
+// No line numbers: a site is identified by module, function, kind and detail.
+type site struct{ Module, Func, Kind, Detail string }
+
+const queryPkg = "github.com/cosmos/cosmos-sdk/types/query"
+
+// keeperFuncs: every function/method declared in x/<m>/keeper (non-test), by name, with the
+// name under which its file imports the sdk query package ("" when it does not).
+type kfunc struct {
+	decl       *ast.FuncDecl
+	queryAlias string
+}
 
 func unk(fset *token.FileSet, n ast.Node, what string) {
 	unknown = append(unknown, fmt.Sprintf("%s: %s", fset.Position(n.Pos()), what))
@@ -98,6 +113,7 @@ func main() {
 	for _, m := range modules {
 		used := map[string]bool{}
 		first := len(entries)
+		kfuncs := map[string][]kfunc{}
 		for _, sub := range []string{"types", "keeper"} {
 			dir := filepath.Join(*repo, "x", m, sub)
 			names, err := filepath.Glob(filepath.Join(dir, "*.go"))
@@ -118,8 +134,28 @@ func main() {
 				}
 				files++
 				scanFile(fset, f, m, sub, base, used)
+				if sub == "keeper" {
+					alias := ""
+					for _, im := range f.Imports {
+						if p, _ := strconv.Unquote(im.Path.Value); p == queryPkg {
+							alias = "query"
+							if im.Name != nil {
+								alias = im.Name.Name
+							}
+						}
+					}
+					if alias == "." || alias == "_" {
+						unknown = append(unknown, fmt.Sprintf("x/%s/keeper/%s: dot/blank import of the query package", m, base))
+					}
+					for _, d := range f.Decls {
+						if fd, ok := d.(*ast.FuncDecl); ok && fd.Body != nil {
+							kfuncs[fd.Name.Name] = append(kfuncs[fd.Name.Name], kfunc{fd, alias})
+						}
+					}
+				}
 			}
 		}
+		genesisSites(fset, m, kfuncs)
 		for i := first; i < len(entries); i++ {
 			if used[entries[i].Name] {
 				entries[i].Used = true
@@ -172,6 +208,20 @@ func main() {
 	}
 	sort.Strings(rm)
 	sb.WriteString("Definition gen_raw_store_modules : list string := [" + strings.Join(rm, "; ") + "].\n\n")
+	sort.Slice(sites, func(i, j int) bool {
+		a, b := sites[i], sites[j]
+		return a.Module+"|"+a.Func+"|"+a.Kind+"|"+a.Detail < b.Module+"|"+b.Func+"|"+b.Kind+"|"+b.Detail
+	})
+	sb.WriteString("(* size-sensitive constructs in the call graphs of ExportGenesis / InitGenesis *)\n")
+	sb.WriteString("Definition gen_genesis_sites : list gen_site := [\n")
+	for i, st := range sites {
+		sep := ";"
+		if i == len(sites)-1 {
+			sep = ""
+		}
+		sb.WriteString(fmt.Sprintf("  {| gs_module := %q; gs_func := %q; gs_kind := %q; gs_detail := %q |}%s\n", st.Module, st.Func, st.Kind, st.Detail, sep))
+	}
+	sb.WriteString("].\n\n")
 	sb.WriteString("Definition gen_unknown : list string := [\n")
 	for i, u := range unknown {
 		sep := ";"
@@ -192,7 +242,7 @@ func main() {
 			os.Exit(1)
 		}
 	}
-	fmt.Printf("prefixes: %d entries, %d unknown, %d files\n", len(entries), len(unknown), files)
+	fmt.Printf("prefixes: %d entries, %d genesis sites, %d unknown, %d files\n", len(entries), len(sites), len(unknown), files)
 }
 
 func scanFile(fset *token.FileSet, f *ast.File, m, sub, base string, used map[string]bool) {
@@ -290,4 +340,72 @@ func scanFile(fset *token.FileSet, f *ast.File, m, sub, base string, used map[st
 		}
 		return true
 	})
+}
+
+var pagingNames = map[string]bool{"Limit": true, "Take": true, "Offset": true, "PageRequest": true, "PageResponse": true,
+	"MaxLimit": true, "DefaultLimit": true, "CountTotal": true, "NextKey": true}
+
+// genesisSites walks the call graph of ExportGenesis and InitGenesis inside x/<m>/keeper (calls
+// are resolved by name: any function or method of the package with that name) and records every
+// construct that could make the result depend on the number of entries.
+func genesisSites(fset *token.FileSet, m string, kfuncs map[string][]kfunc) {
+	seen := map[string]bool{}
+	var work []string
+	for _, root := range []string{"ExportGenesis", "InitGenesis"} {
+		if len(kfuncs[root]) == 0 {
+			unknown = append(unknown, fmt.Sprintf("module %s: no %s in x/%s/keeper", m, root, m))
+			continue
+		}
+		work = append(work, root)
+		seen[root] = true
+	}
+	add := func(fn, kind, detail string) {
+		for _, s := range sites {
+			if s.Module == m && s.Func == fn && s.Kind == kind && s.Detail == detail {
+				return
+			}
+		}
+		sites = append(sites, site{m, fn, kind, detail})
+	}
+	for len(work) > 0 {
+		name := work[0]
+		work = work[1:]
+		for _, kf := range kfuncs[name] {
+			ast.Inspect(kf.decl.Body, func(n ast.Node) bool {
+				switch x := n.(type) {
+				case *ast.SliceExpr:
+					add(name, "slice", "slice expression")
+				case *ast.SelectorExpr:
+					if id, ok := x.X.(*ast.Ident); ok && kf.queryAlias != "" && id.Name == kf.queryAlias {
+						add(name, "query-package", x.Sel.Name)
+					}
+					if pagingNames[x.Sel.Name] || strings.Contains(x.Sel.Name, "Paginat") {
+						add(name, "paging-name", x.Sel.Name)
+					}
+				case *ast.Ident:
+					if pagingNames[x.Name] || strings.Contains(x.Name, "Paginat") {
+						add(name, "paging-name", x.Name)
+					}
+				case *ast.CallExpr:
+					callee := ""
+					switch f := x.Fun.(type) {
+					case *ast.SelectorExpr:
+						callee = f.Sel.Name
+						if (callee == "Walk" || callee == "Iterate" || callee == "IterateRaw") && len(x.Args) >= 2 {
+							if id, ok := x.Args[1].(*ast.Ident); !ok || id.Name != "nil" {
+								add(name, "bounded-range", callee+" with a ranger")
+							}
+						}
+					case *ast.Ident:
+						callee = f.Name
+					}
+					if callee != "" && len(kfuncs[callee]) > 0 && !seen[callee] {
+						seen[callee] = true
+						work = append(work, callee)
+					}
+				}
+				return true
+			})
+		}
+	}
 }
